@@ -1,6 +1,7 @@
 mod c01;
 mod c02;
 mod c03;
+mod c04;
 mod c05;
 mod c07;
 mod c08;
@@ -26,6 +27,54 @@ mod tracecmp;
 
 use ev::Tier;
 
+/// Per-thread live and peak heap bytes (used by C04; a thread-local add per allocation).
+pub mod heap {
+    use std::alloc::{GlobalAlloc, Layout, System};
+    use std::cell::Cell;
+    thread_local! {
+        static LIVE: Cell<isize> = const { Cell::new(0) };
+        static PEAK: Cell<isize> = const { Cell::new(0) };
+    }
+    pub struct Counting;
+    fn add(n: isize) {
+        let _ = LIVE.try_with(|l| {
+            let v = l.get() + n;
+            l.set(v);
+            let _ = PEAK.try_with(|p| {
+                if v > p.get() {
+                    p.set(v)
+                }
+            });
+        });
+    }
+    unsafe impl GlobalAlloc for Counting {
+        unsafe fn alloc(&self, l: Layout) -> *mut u8 {
+            add(l.size() as isize);
+            System.alloc(l)
+        }
+        unsafe fn dealloc(&self, p: *mut u8, l: Layout) {
+            add(-(l.size() as isize));
+            System.dealloc(p, l)
+        }
+        unsafe fn realloc(&self, p: *mut u8, l: Layout, new: usize) -> *mut u8 {
+            add(new as isize - l.size() as isize);
+            System.realloc(p, l, new)
+        }
+    }
+    /// (live, peak) of the calling thread
+    pub fn read() -> (isize, isize) {
+        (LIVE.with(|l| l.get()), PEAK.with(|p| p.get()))
+    }
+    /// restart peak tracking from the current live value
+    pub fn reset_peak() {
+        let l = LIVE.with(|l| l.get());
+        PEAK.with(|p| p.set(l));
+    }
+}
+
+#[global_allocator]
+static GLOBAL: heap::Counting = heap::Counting;
+
 fn main() {
     let args: Vec<String> = std::env::args().collect();
     let cmd = args.get(1).map(|s| s.as_str()).unwrap_or("");
@@ -41,6 +90,7 @@ fn main() {
         "c01" => c01::main(tier),
         "c02" => c02::main(tier),
         "c03" => c03::main(tier),
+        "c04" => c04::main(tier),
         "c05" => c05::main(tier),
         "c05-child" => c05::child(&args[2..]),
         "c05-describe" => c05::describe_cmd(&args[2..]),
